@@ -262,7 +262,7 @@ def equivalence_shards(tier):
 
 
 def budgets(tier):
-    return {"G1": 5, "G2": 5, "G3": 5, "G4": 4, "G5": 2} if tier == "quick" else {"G1": 6, "G2": 6, "G3": 6, "G4": 6, "G5": 3}
+    return {"G1": 5, "G2": 5, "G3": 5, "G4": 4, "G5": 2, "G6": 5} if tier == "quick" else {"G1": 6, "G2": 6, "G3": 6, "G4": 6, "G5": 3, "G6": 6}
 
 
 def run(run):
